@@ -179,6 +179,11 @@ RcxFails(e) ==
       Commutes == \A i \in 1..Len(KR) : KR[i] = RC(Kmers(s, kk)[Len(KR) + 1 - i])
       R1 == /\ Commutes
             /\ \A i \in 1..Len(e.res) : e.res[i].rc = RC(s) /\ e.res[i].rcrc = s /\ e.res[i].kmers_rc = KR
+            \* a window [a, b) of a reverse-complemented view is the reverse complement of the mirrored window of s
+            /\ \A i \in 1..Len(e.res) : e.res[i].ty = "windows" =>
+                  \A j \in 1..Len(e.res[i].wins) :
+                     LET w == e.res[i].wins[j] IN /\ w[3] = RC(Seg(s, n - w[2] + 1, n - w[1]))
+                                                  /\ w[4] = Seg(s, n - w[2] + 1, n - w[1])
       R3 == DOMAIN e.kmer = {} \/
               /\ e.kmer.rc = RC(s) /\ e.kmer.canon = Canon(s) /\ e.kmer.canon_of_rc = Canon(s)
               /\ e.kmer.flip = ~LexLess(s, RC(s)) /\ e.kmer.pal = (s = RC(s))
